@@ -385,7 +385,7 @@ type httpOutcome struct {
 // Panics in goroutines spawned by the handlers kill this process; the
 // coordinator attributes the death to the item (the C10-STEP lines on stderr
 // tell which request was being served).
-func runHTTP(data []byte) (out httpOutcome) {
+func runHTTP(data []byte, force bool) (out httpOutcome) {
 	e := getEnv()
 	e.n++
 	defer e.reset()
@@ -414,9 +414,12 @@ func runHTTP(data []byte) (out httpOutcome) {
 		step(fmt.Sprintf("loadmodel %d", max))
 		if f := loadModel(blobPath, max); f != nil {
 			add(f)
-			// create would run the same decoder in a goroutine and take the process down
-			out.Class = strings.Join(classes, ",") + ",loadmodel-panic"
-			return
+			if !force {
+				// create would run the same decoder in a goroutine and take the process down
+				out.Class = strings.Join(classes, ",") + ",loadmodel-panic"
+				return
+			}
+			break // stage 2: go on and let the create handler meet the same input
 		}
 	}
 
